@@ -33,7 +33,7 @@ PROPS = {
     "C06": {"families": ["vacancy", "regress", "faults", "stop"],
             "nontrivial_rule": "the record becomes vacant (delete, expiry) while another instance runs",
             "mc": ["MC_Vacancy", "MC_VacancyFault", "MC_Faults"]},
-    "C07": {"families": ["conform", "witness", "regress", "core", "stop"],
+    "C07": {"families": ["conform", "witness", "regress", "core", "stop", "prio", "slowop"],
             "nontrivial_rule": "a term lasting at least two successful refreshes with a second instance or a stop in the trace",
             "mc": ["MC_Core2"]},
     "C08": {"families": ["conform", "witness", "slowop", "regress", "core", "faults", "health", "conn", "stop", "prio"],
